@@ -298,6 +298,14 @@ func e1Scens(prop, tier string) []e1Scen {
 		}
 	}
 	if prop == "C04" {
+		// a user query string that is not in canonical form (keys out of order, an escape): every view of the history
+		// - plain reloads, delta updates - spells the URI of a media sequence number the same way
+		for _, q := range []string{"user=myuser&pass=mypass", "b=2&a=1%20x", "token"} {
+			cfg := mcfg("ll", false, 7, "h264")
+			out = append(out, e1Scen{Prop: prop, Cfg: cfg, Alpha: alphaTiming(0), Mode: "periodic", Period: 2, Len: 6 * 7 * 2, Query: q, Name: "query-periodic"})
+		}
+	}
+	if prop == "C04" {
 		// the numbering clauses hold whatever happens to a Write: a rotation that fails on storage (the next segment's
 		// file cannot be created), and random-access units whose parameter sets cannot be parsed, so that the Write that
 		// has to build the init segment from them fails; the writer carries on in both cases. Low-Latency is left
